@@ -98,6 +98,22 @@ def kinds_schema(byte_order="littleEndian", package=None):
                          [Data("str", nid(), "varStrEncoding")]),
                    Group("flat", nid(), [Field("x", nid(), "TX_int32"), Field("k", nid(), "K_num")])],
                   [Data("blob", nid(), "varDataEncoding"), Data("text", nid(), "varStrEncoding")]))
+    # every built-in primitive in a *non-last* position too (the reversed list), in a root block and in a group entry, with an
+    # explicit offset on the field that follows the widest ones: the generator keeps a separate running offset per built-in
+    # type for the cursor accessors (found necessary by mutants c01d / c02e: a wrong row of that table for int64 / double)
+    rev = list(reversed(ALL))
+    sizes = {p: PRIMS[p][0] for p in ALL}
+    flds, off = [], 0
+    for i, p in enumerate(rev):
+        o = None
+        if i in (1, 4):            # the field after `double` and the one after `int64`: explicit offset with a 3-byte gap
+            off += 3
+            o = off
+        flds.append(Field("v_" + p, nid(), p, offset=o))
+        off += sizes[p]
+    ms.append(Msg("prims_rev", 10, flds))
+    ms.append(Msg("prims_rev_g", 11, [Field("r", nid(), "uint8")],
+                  [Group("g", nid(), [Field("w_" + p, nid(), p, presence=("optional" if i % 2 else None)) for i, p in enumerate(rev)])]))
     tag = "le" if byte_order == "littleEndian" else "be"
     return Schema(package or ("kinds_" + tag), ts, ms, id=9, version=4, byte_order=byte_order, desc="kinds", sem_version="1.0")
 
